@@ -276,7 +276,11 @@ def walk_deltamax(prog):
             block(s.body, e2, dom, lv)
             return [(env, conds)]
         if isinstance(s, ast.Return):
-            results.append((list(conds), "return", (unparse(s.value), s)))
+            rv_ = s.value
+            if isinstance(rv_, ast.Name):
+                from lcsa import bind as _bind
+                rv_ = _bind._resolve_local(f, rv_)            # `pair = (self.dmax, self.seqDeltaMax); return pair`
+            results.append((list(conds), "return", (unparse(rv_), s)))
             return []
         if isinstance(s, ast.Raise):
             results.append((list(conds), "raise", (s, list(loopvars))))
